@@ -51,7 +51,7 @@ OPS = ["+", "-", "*", "/", "%", "|", "&", "^", "<<", ">>", "rol", "ror"]
 OPNAME = {"+": "add", "-": "sub", "*": "mul", "/": "div", "%": "rem", "|": "or", "&": "and", "^": "xor",
           "<<": "shl", ">>": "shr", "rol": "rol", "ror": "ror"}
 CONDS = {"==": "eq", "!=": "ne", "<": "lt", ">": "gt", "<=": "le", ">=": "ge"}
-FUEL = {"quick": 800, "thorough": 4000}
+FUEL = {"quick": 500, "thorough": 4000}
 PTR_BYTES = 4   # ir2py stores pointers with struct format "i"
 RUNNER = os.path.join(os.path.dirname(os.path.dirname(os.path.abspath(__file__))), "harness", "c24_runner.py")
 
